@@ -406,3 +406,28 @@ PROPS["C19"] = dict(suites=[("capconc", {Q: 60, T: 1500})],
          "checked per thread against the single-threaded reference run plus all C17 laws on the shared storage; all threads are kept "
          "alive until the end of a case (the Registry's per-thread stacks live in recycled thread_local slots); non-trivial = >= 2 "
          "threads creating spans (free) or a schedule alternating between threads at least twice (forced); distinct by input text")
+
+
+def _proj_capture(prop):
+    def proj(suite, lines):
+        if suite != "capture":
+            return lines
+        if prop == "C16":          # panics / poisoned storages only (independence is an implementation-side oracle)
+            return [l for l in lines if l == "panic" or "poisoned" in l]
+        if prop == "C17":          # the forest structure only
+            out = []
+            for l in lines:
+                t = l.split(" ")
+                if len(t) > 2 and t[1] == "sp":
+                    out.append(" ".join(t[:3] + t[-4:]))
+                elif len(t) > 2 and t[1] == "evn":
+                    out.append(" ".join(t[:3] + t[-1:]))
+                else:
+                    out.append(l)
+            return out
+        return lines
+    return proj
+
+
+for _p in ["C05", "C16", "C17"]:
+    PROPS[_p]["project"] = _proj_capture(_p)
